@@ -3,6 +3,8 @@
 import os, sys
 sys.path.insert(0, os.path.dirname(os.path.abspath(__file__)))
 sys.path.insert(0, os.path.dirname(os.path.dirname(os.path.abspath(__file__))))
+import common
+import rust_harness
 import streamlib
 from streams import ani
 
@@ -18,9 +20,15 @@ TB = [
     "translator (harness/translators/ani.py): default thresholds, check_distance, the ani/ani_low/ani_high properties, __post_init__ bodies, "
     "point-estimate expressions, r1_to_q, var_n_mutated, the error bound, get_exp_probability_nothing_common, the MinHash wrappers' "
     "n_unique_kmers / size flags, and the two shapes of ani_utils.rs are re-read by AST / token matching on every run",
-    "Python vs native estimator: src/core/src/ani_utils.rs is NOT reachable through the Python FFI (include/sourmash.h exports no ANI function; "
-    "revindex_gather drops the ANI fields): nothing of it is executed here. Its point estimate is the same expression (translator + theorem "
-    "native_same_closed_form over the reals); its interval code differs (finding D17, from the source text only)",
+    "Python vs native estimator: src/core/src/ani_utils.rs is not reachable through the Python FFI (include/sourmash.h exports no ANI function). "
+    "It is EXECUTED through the out-of-tree rust-harness (`smharness ani`, built offline against the working tree's sourmash crate): the two pub "
+    "functions through the crate, the private helpers (r1_to_q, exp_n_mutated, var_n_mutated, exp_n_mutated_squared, probit, "
+    "get_exp_probability_nothing_common are plain `fn`, neither pub nor pub(crate)) through a textual include of the same source file, "
+    "compiled by the same compiler and profile; `inc-ani` / `inc-ci` run the included copy of the pub functions next to the library's. "
+    "The +-*/ shapes (incl. powi = compiler-builtins' multiplication loop) are modelled and compared bit for bit; statrs' inverse normal CDF "
+    "and roots' find_root_brent are not modelled (the model echoes those results, the oracle judges them against the Python twin: 1e-6 absolute)",
+    "MinHash.size_is_accurate: scipy.stats.binom.cdf / pmf are INPUTS of the model (recorded by a proxy around distance_utils.binom inside the adapter); "
+    "the model reproduces which functions are called with which arguments (binary64 +-*/ only), the probability and the answer",
     "the independent oracle evaluates 1 - x^(1/k) with Python's decimal module at 60 digits",
 ]
 AS = [
@@ -28,10 +36,14 @@ AS = [
     "n_unique_kmers from 1 upward, confidence levels 0.01..0.999, thresholds None / 0 / 1e-3 / 1",
     "jaccard_to_distance raising ValueError('varN <0.0!') when n_unique_kmers < ksize is treated as the documented refusal of inputs that are "
     "too small ('this seems to happen only with super tiny test data'); the same error for n_unique_kmers >= ksize is finding D16",
+    "the only output lines that are not bit-identical between model and implementation are `nat pnc` at scaled = 1, where both sides "
+    "return NaN (0 * -inf; Rust yields the negative quiet NaN, Lean's Float.toBits the canonical one) - same() treats NaN = NaN; the native "
+    "get_exp_probability_nothing_common is dead code (#[allow(dead_code)]) and returns NaN there where the Python twin returns 0.0",
     "monotonicity in binary64 is checked as non-strict (the real functions are strictly monotone: theorems strict_mono_c / strict_mono_j)",
     "inputs outside [0,1] (not ratios of sketch sizes) are only compared with the model, the property says nothing about them",
 ]
-RULE = ("four case flavours: closed (groups of containment_to_distance / jaccard_to_distance calls sharing k, on attainable ratios biased to "
+RULE = ("six case flavours: native (the Rust estimator next to the Python one on the same inputs: point estimate, interval, r1_to_q, exp/var_n_mutated, "
+        "prob_nothing_in_common, probit), sia (size_is_accurate around its flip points, every parameter boundary, both branches of set_size_exact_prob), closed (groups of containment_to_distance / jaccard_to_distance calls sharing k, on attainable ratios biased to "
         "0, 1/b, (b-1)/b, 1, one ulp below 1, ~1e-10), res (ANIResult / jaccardANIResult / ciANIResult constructed from boundary values incl. "
         "NaN, inf, -0.0, 1+ulp, thresholds +- ulp; compared exactly), ci (estimate_ci=True over confidence levels and sizes incl. sizes where brentq fails), "
         "mh (containment_ani / max_containment_ani / avg_containment_ani / jaccard_ani on real sketches of 1..3000 hashes, identical / disjoint / partial overlap); "
@@ -43,15 +55,9 @@ RULE = ("four case flavours: closed (groups of containment_to_distance / jaccard
 def extra(chk, pkg):
     chk.cov["level"] = "partial: real-analysis and decision-logic theorems are proved; the binary64 / scipy numerics are tied by tolerance correspondence only"
     chk.cov["tolerance"] = {"same": "identical, or bit-pattern fields within 1e-12 relative; `exact` lines identical", "proved": False}
-    tr = ((chk.translator or {}).get("outputs") or {}).get("ani") or {}
-    if tr.get("rust.ci_defaults_on_failure"):
-        chk.add_violation("source", "C17:native-ci:unwrap_or_default",
-                          "ani_utils.rs ani_ci_from_containment replaces a failed root search by the default 0.0 "
-                          "(find_root_brent(..).unwrap_or_default()): the native interval is fabricated (bound 1.0), not withheld; "
-                          "from the source text, the native estimator cannot be executed through the Python FFI",
-                          {"translator": tr, "theorem": "Sm.C17.native_ci_fabricated_counterexample"}, concrete=False)
     # how often is the 1e-12 tolerance actually used?  (measured on a fresh sample of closed-form cases)
-    sample = [ani.gen_case(chk.rng, "closed") for _ in range(300)] + [ani.gen_case(chk.rng, "mh") for _ in range(100)]
+    sample = [ani.gen_case(chk.rng, "closed") for _ in range(300)] + [ani.gen_case(chk.rng, "mh") for _ in range(100)] + \
+        [ani.gen_case(chk.rng, "native") for _ in range(150)] + [ani.gen_case(chk.rng, "sia") for _ in range(100)]
     ident = tol = 0
     for case, impl, model, crash in streamlib.run_cases(ani, sample, pkg, procs=8):
         if crash is None:
@@ -99,5 +105,10 @@ def extra(chk, pkg):
 
 
 if __name__ == "__main__":
-    streamlib.run_property("C17", ani, ["closed", "res", "ci", "mh", "closed", "res"], ani.oracle,
+    try:
+        rust_harness.build()
+    except SystemExit:
+        print("TOOL-FAILURE property=C17 rust harness does not build against the working tree")
+        sys.exit(2)
+    streamlib.run_property("C17", ani, ["closed", "res", "ci", "mh", "native", "sia", "closed", "res", "mh", "native"], ani.oracle,
                            5000, 40000, TB, AS, RULE, nontrivial=ani.nontrivial, extra=extra)
